@@ -331,6 +331,7 @@ class P(Prop):
             else:
                 c["t1"], c["t2"] = rng.randrange(-1, 13), rng.randrange(-1, 13)
             out.append(c)
+        out += self.more_cases(rng, tier)
         out += self.session_cases(rng, tier)
         # the sortRadix cases are slow (the code allocates 60000 buckets per call): spread them over the engine's shards
         rad = self.radix_cases(rng, tier)
@@ -339,6 +340,50 @@ class P(Prop):
             out.insert(min(len(out), (i + 1) * gap + i), c)
         return out
 
+
+    # ---------------------------------------------------------------- the remaining list operations, slice.indices
+    MORE_KINDS = ("reverse", "makeodd", "makeeven", "setobs", "first", "last", "split", "removets")
+
+    def more_cases(self, rng, tier):
+        out = []
+        F = ["f"]
+        for n in range(0, 7):
+            for times in (list(range(1, 2 * n + 1, 2)), [rng.choice(V4) for _ in range(n)]):
+                names = rng.choice([[], F, ["f", "g"]])
+                for k in ("reverse", "makeodd", "makeeven", "first", "last"):
+                    out.append({"kind": k, "times": times, "names": names})
+                for i in range(-n - 2, n + 3):
+                    for form in ("setObs", "item"):
+                        out.append({"kind": "setobs", "times": times, "names": names, "i": i, "ts": rng.randrange(9), "form": form})
+                for number in range(-2, n + 4):
+                    out.append({"kind": "split", "times": times, "names": names, "n": number})
+                for L in range(0, 3):
+                    for ts in itertools.product(range(0, 9), repeat=L):
+                        out.append({"kind": "removets", "times": times, "names": names, "ts": list(ts)})
+        for _ in range(300 if tier == "quick" else 3000):
+            n = rng.choice([rng.randrange(7, 40), 2 ** rng.randrange(3, 7), 2 ** rng.randrange(3, 7) + 1])
+            times = [rng.randrange(12) for _ in range(n)]
+            names = rng.choice([[], F, ["f", "g"]])
+            k = rng.choice(self.MORE_KINDS)
+            c = {"kind": k, "times": times, "names": names}
+            if k == "setobs":
+                c.update(i=rng.randrange(-n - 1, n + 1), ts=rng.randrange(12), form=rng.choice(["setObs", "item"]))
+            elif k == "split":
+                c["n"] = rng.randrange(1, n + 3)
+            elif k == "removets":
+                c["ts"] = rng.sample(range(-1, 13), rng.randrange(0, 6))
+            out.append(c)
+        # ---- CPython's slice.indices / len(range(...)) against the model's sliceBounds / sliceLen (the contract of pySlice)
+        for n in range(0, 9):
+            rg = [None] + list(range(-n - 3, n + 4))
+            for a in rg:
+                out.append({"kind": "sliceidx", "times": [], "len": n, "args": [[a, b, c] for b in rg for c in (1, 2, 3, 5, -1, -2, -3, -5, 0)]})
+        for _ in range(60 if tier == "quick" else 600):
+            n = rng.choice([rng.randrange(0, 50), rng.randrange(50, 10 ** 6), 2 ** rng.randrange(1, 40)])
+            B = lambda: rng.choice([None, rng.randrange(-2 * n - 2, 2 * n + 3), rng.choice([-n - 1, -n, -n + 1, -1, 0, 1, n - 1, n, n + 1])])
+            C = lambda: rng.choice([1, -1, 2, -2, rng.randrange(1, n + 3), -rng.randrange(1, n + 3), 0])
+            out.append({"kind": "sliceidx", "times": [], "len": n, "args": [[B(), B(), C()] for _ in range(100)]})
+        return out
 
     # ---------------------------------------------------------------- session generators
     HISTS = [[], [["c", "f"]], [["c", "f"], ["c", "g"]], [["c", "g"], ["c", "f"]],
@@ -593,7 +638,7 @@ class P(Prop):
             return any(len(t["times"]) >= 2 for t in case["tracks"]) and bool(case["ops"])
         if case["kind"] == "radix":
             return len(case["fields"]) >= 2
-        return len(case["times"]) >= 2 or case["kind"] == "ilog"
+        return len(case["times"]) >= 2 or case["kind"] in ("ilog", "sliceidx")
 
     # ---------------------------------------------------------------- implementation
     def impl(self, case):
@@ -606,6 +651,16 @@ class P(Prop):
             return self.impl_session(case)
         if k == "radix":
             return self.impl_radix(case)
+        if k == "sliceidx":
+            # CPython's own index adjustment (trusted-contract check of the model's sliceBounds / sliceLen)
+            res = []
+            for a, b, c in case["args"]:
+                try:
+                    ind = slice(a, b, c).indices(case["len"])
+                    res.append([ind[0], ind[1], len(range(*ind))])
+                except ValueError:
+                    res.append("err:value")
+            return {"idx": res}
         tr = self.mk(case["times"], names)
         if k == "index":
             res = []
@@ -639,6 +694,27 @@ class P(Prop):
                 out["out"] = self.dump(tr > case["n"])
             elif k == "lt":
                 out["out"] = self.dump(tr < case["n"])
+            elif k == "reverse":
+                out["out"] = self.dump(tr.reverse())
+            elif k == "makeodd":
+                tr.makeOdd()
+            elif k == "makeeven":
+                tr.makeEven()
+            elif k == "setobs":
+                o = self.mk_obs(NEW_TAG, case["ts"], names)
+                if case["form"] == "item":
+                    tr[case["i"]] = o
+                else:
+                    tr.setObs(case["i"], o)
+            elif k == "first":
+                out["ret"] = self.obs_tag(tr.getFirstObs())
+            elif k == "last":
+                out["ret"] = self.obs_tag(tr.getLastObs())
+            elif k == "split":
+                coll = tr / case["n"]
+                out["outs"] = [self.dump(coll.getTrack(i)) for i in range(coll.size())]
+            elif k == "removets":
+                out["ret"] = tr.removeObsList([self.TS(t) for t in case["ts"]])
             else:
                 raise ValueError(k)
         except BaseException as e:
@@ -682,6 +758,9 @@ class P(Prop):
             return self.requests_session(case)
         if k == "radix":
             return ["C04.radix %s" % (";".join(",".join(map(str, self.radix_digits(f))) for f in case["fields"]) or "_")]
+        if k == "sliceidx":
+            oi = lambda v: "N" if v is None else str(v)
+            return ["C04.sliceidx %d %s %s %d" % (case["len"], oi(a), oi(b), c) for a, b, c in case["args"]]
         p = self.tok_pts(obs_rows(case["times"], names))
         nm = self.tok_names(names)
         if k == "ilog":
@@ -708,6 +787,16 @@ class P(Prop):
             return ["C04.pattern %s %s %s" % (p, nm, "".join(map(str, case["pat"])) if case["pat"] else "_")]
         if k in ("gt", "lt"):
             return ["C04.%s %s %s %d" % (k, p, nm, case["n"])]
+        if k == "reverse":
+            return ["C04.reverse %s %s" % (p, nm)]
+        if k in ("makeodd", "makeeven", "first", "last"):
+            return ["C04.%s %s" % (k, p)]
+        if k == "setobs":
+            return ["C04.setobs %s %d %s" % (p, case["i"], ":".join(map(str, [NEW_TAG, case["ts"]] + feats(NEW_TAG, names))))]
+        if k == "split":
+            return ["C04.split %s %s %d" % (p, nm, case["n"])]
+        if k == "removets":
+            return ["C04.removets %s %s" % (p, ",".join(map(str, case["ts"])) if case["ts"] else "_")]
         raise ValueError(k)
 
     def decode(self, case, replies):
@@ -723,6 +812,16 @@ class P(Prop):
                 return {"err": r, "rows": [[i, list(f)] for i, f in enumerate(case["fields"])]}
             order = [] if r == "_" else [int(x) for x in r.split(",")]
             return {"rows": [[i, list(case["fields"][i])] for i in order]}
+        if k == "sliceidx":
+            res = []
+            for r in replies:
+                if r == "err:value":
+                    res.append(r)
+                else:
+                    res.append([int(x) for x in r.split(" ")])      # bad-request raises here
+                    if len(res[-1]) != 3:
+                        raise ValueError(r)
+            return {"idx": res}
         src = self.track_dict(obs_rows(case["times"], names), names)
         if k == "ilog":
             return {"j": [int(x) for x in replies[0].split(",")]}
@@ -743,6 +842,22 @@ class P(Prop):
             if r.startswith("err:"):
                 return {"err": r, "src": src}
             return {"src": self.untrack(*r.split(" "))}
+        if k in ("makeodd", "makeeven", "setobs"):
+            if r.startswith("err:"):
+                return {"err": r, "src": src}
+            return {"src": self.track_dict(self.untrack(r, "_")["pts"], names)}
+        if k in ("first", "last"):
+            if r.startswith("err:"):
+                return {"err": r, "src": src}
+            return {"ret": int(r), "src": src}
+        if k == "split":
+            if r.startswith("err:"):
+                return {"err": r, "src": src}
+            segs, tb = r.split(" ")
+            return {"outs": [] if segs == "-" else [self.untrack(sg, tb) for sg in segs.split(";")], "src": src}
+        if k == "removets":
+            p, ret = r.split(" ")
+            return {"ret": int(ret), "src": self.track_dict(self.untrack(p, "_")["pts"], names)}
         if k == "remove":
             p, ret = r.split(" ")
             after = self.track_dict(self.untrack(p, "_")["pts"], names)
@@ -1264,11 +1379,20 @@ class P(Prop):
             return self.spec_session(case, out)
         if k == "radix":
             return self.spec_radix(case, out)
+        if k == "sliceidx":
+            # CPython against itself on an actual list (small lengths): the positions start, start+step, ... are what L[a:b:c] holds
+            n = case["len"]
+            for (a, b, c), r in zip(case["args"], out["idx"]):
+                if (c == 0) != (r == "err:value"):
+                    return "slice(%s,%s,%s).indices(%d) gives %s" % (a, b, c, n, r)
+                if c != 0 and n <= 64 and [r[0] + j * c for j in range(r[2])] != list(range(n))[a:b:c]:
+                    return "slice(%s,%s,%s).indices(%d) = %s does not designate what L[a:b:c] holds" % (a, b, c, n, r)
+            return None
         names = list(case.get("names", []))
         rows = obs_rows(case["times"], names)
         n = len(rows)
         src = out.get("src")
-        inplace = k in ("insert", "sort", "remove")
+        inplace = k in ("insert", "sort", "remove", "makeodd", "makeeven", "setobs", "removets")
         if src is None:
             return "raised %s" % out.get("err")
         if src["names"] != names:
@@ -1329,6 +1453,8 @@ class P(Prop):
             if out.get("ret") != len(idx):
                 return "removeObsList(%s) returned %s" % (idx, out.get("ret"))
             return None
+        if k in self.MORE_KINDS:
+            return self.spec_more(case, out, rows, names, own)
         # ---- operators returning a new track
         want = None
         if k == "extract":
@@ -1382,6 +1508,85 @@ class P(Prop):
         if got["names"] != names:
             return "%s returns the feature-name table %s instead of %s" % (what, got["names"], names)
         return None
+
+    def spec_more(self, case, out, rows, names, own):
+        """the remaining list operations (not named by the property's statement: the oracle asks what their docstring / name designates,
+        and nothing where the arguments designate no observation)"""
+        k, n, got = case["kind"], len(rows), out["src"]["pts"]
+        if k == "reverse":
+            if "err" in out:
+                return "reverse() raised %s" % out["err"]
+            res = out["out"]
+            if res["pts"] != rows[::-1]:
+                return "reverse() of %s returns %s" % (rows, res["pts"])
+            if res["names"] != names:
+                return "reverse() returns the feature-name table %s instead of %s" % (res["names"], names)
+            return self.reads_own(res, own, "the result of reverse()")
+        if k in ("makeodd", "makeeven"):
+            if n == 0 and k == "makeodd":
+                return None if got == rows else "makeOdd() on the empty track leaves %s" % got      # nothing to drop: outside the scope
+            if "err" in out:
+                return "%s raised %s on %d observations" % (k, out["err"], n)
+            want = rows if n % 2 == (1 if k == "makeodd" else 0) else rows[:-1]
+            return None if got == want else "%s on %s leaves %s" % (k, rows, got)
+        if k == "setobs":
+            i = case["i"]
+            if not 0 <= i < n:
+                return None if (len(got) == n and sum(1 for a, b in zip(got, rows) if a != b) <= 1) else "setObs(%d) on %s leaves %s" % (i, rows, got)
+            if "err" in out:
+                return "setObs(%d) on %d observations raised %s" % (i, n, out["err"])
+            new = [NEW_TAG, case["ts"]] + feats(NEW_TAG, names)
+            want = rows[:i] + [new] + rows[i + 1:]
+            return None if got == want else "setObs(%d) on %s leaves %s" % (i, rows, got)
+        if k in ("first", "last"):
+            if n == 0:
+                return None
+            if "err" in out:
+                return "%s raised %s on %d observations" % (k, out["err"], n)
+            w = rows[0][0] if k == "first" else rows[-1][0]
+            return None if out.get("ret") == w else "get%sObs() on %s returns observation %s" % (k.capitalize(), rows, out.get("ret"))
+        if k == "split":
+            number = case["n"]
+            if number < 1:
+                return None
+            if "err" in out:
+                return "track / %d raised %s on %d observations" % (number, out["err"], n)
+            outs = out["outs"]
+            if len(outs) != number:
+                return "track / %d returns %d segments" % (number, len(outs))
+            cat = [r for d in outs for r in d["pts"]]
+            if not is_subsequence(cat, rows) or len(cat) > n:
+                return "track / %d on %s returns the segments %s: not consecutive parts of the track" % (number, rows, [d["pts"] for d in outs])
+            for j, d in enumerate(outs):
+                if d["names"] != names:
+                    return "segment %d of track / %d has the feature-name table %s instead of %s" % (j, number, d["names"], names)
+                m = self.reads_own(d, own, "segment %d of track / %d" % (j, number))
+                if m:
+                    return m
+            return None
+        if k == "removets":
+            ts = case["ts"]
+            if "err" in out:
+                return "removeObsList(timestamps %s) raised %s" % (ts, out["err"])
+            if not is_subsequence(got, rows):
+                return "removeObsList(timestamps %s) on %s leaves %s" % (ts, rows, got)
+            if len(set(ts)) < len(ts):
+                return None       # a repeated timestamp is refused by the code (nothing removed); removing is fine too
+            left = list(got)
+            gone = []
+            for r in rows:
+                if left and left[0] == r:
+                    left.pop(0)
+                else:
+                    gone.append(r)
+            if any(r[1] not in ts for r in gone):
+                return "removeObsList(timestamps %s) on %s removed %s" % (ts, rows, gone)
+            if any(t in [r[1] for r in rows] and t not in [r[1] for r in gone] for t in ts):
+                return "removeObsList(timestamps %s) on %s removed only %s" % (ts, rows, gone)
+            if out.get("ret") != len(gone):
+                return "removeObsList(timestamps %s) removed %d observations and returned %s" % (ts, len(gone), out.get("ret"))
+            return None
+        raise ValueError(k)
 
     # ---------------------------------------------------------------- shrinking / search
     def shrink_session(self, case):
